@@ -723,6 +723,12 @@ pub fn degenerate_keys<B: Backend>() -> Vec<(Target, &'static str, Vec<u8>)> {
                 let pk = rsapool::public_of(&der);
                 for t in [Target::KeySecret, Target::KeyPkeSecret] {
                     out.push((t, l, der.clone()));
+                    // the same key with other CRT integers (parsers that recompute them accept these)
+                    for (how, lbl) in [(0u8, "crt-zeroed"), (1, "crt-altered"), (2, "crt-swapped")] {
+                        if let Some(d) = rsapool::with_other_crt(&der, how) {
+                            out.push((t, lbl, d));
+                        }
+                    }
                     out.push((t, "truncated-der", der[..der.len() - 7].to_vec()));
                     out.push((t, "trailing-der", [&der[..], &[0, 0, 0]].concat()));
                     let mut d = der.clone();
@@ -1029,6 +1035,27 @@ pub fn backend<B: Backend>(opts: &Opts, rep: &mut Report) {
         }
     }
 
+    // (iv-a) footers that are valid UTF-8 with multi-byte characters, of every byte length 0..=160 and every
+    //        alignment (error paths that quote or truncate the footer), on every token target
+    for t in [Target::TokLocalVec, Target::TokLocalUnit, Target::TokLocalJson, Target::TokLocalClaims, Target::TokPublicVec, Target::TokPublicUnit, Target::TokPublicJson, Target::TokPublicClaims] {
+        let Some((_, seed_tok)) = fx.seeds.iter().find(|(tt, _)| *tt == t) else { continue };
+        let (h, body, _) = split_token(seed_tok);
+        for (ci, ch) in ["\u{e9}", "\u{20ac}", "\u{1d11e}", "\u{7f}\u{80}"].iter().enumerate() {
+            for ascii in 0..4usize {
+                for n in 0..=(160 / ch.len()) {
+                    idx += 1;
+                    if !opts.mine_sys(idx) {
+                        continue;
+                    }
+                    if B::VER == 1 && t.header::<B>().contains("public") && (n + ci) % 4 != 0 {
+                        continue;
+                    }
+                    let footer = format!("{}{}", "a".repeat(ascii), ch.repeat(n));
+                    run(rep, t, "utf8-footer", &join_token(&h, &body, footer.as_bytes()), &mut expensive_left);
+                }
+            }
+        }
+    }
     // (iv) valid UTF-8 with 2-, 3- and 4-byte characters at every position mod 4 of every seed kind
     for (t, s) in fx.seeds.iter().take(22) {
         let hl = t.header::<B>().len();
@@ -1098,7 +1125,7 @@ pub fn run(opts: &Opts) {
     for_backends!(opts, backend, opts, &mut rep);
     rep.set(
         "rule",
-        json!("hostile strings for every FromStr/Deserialize instantiation of every backend: (i) header variants x every decoded body length 0..700 x {random,00,ff,stretched-valid}; (ii-c) tokens validly sealed under the fixture keys whose claims carry extreme / malformed exp-nbf-iat timestamps or wrong types, unsealed through every built-in validator (Time at a realistic now, leeways 1 s..1 y, HasExpiry/ForSubject/FromIssuer/ForAudience chains, Vec); (ii) mutated valid serialisations (vectors + fresh): bit flips, byte sets, truncation, insertion, deletion, zero runs, cross-kind splices, decoded-level edits, multibyte UTF-8; (iii) degenerate key encodings (P-384 infinity/x>=p/off-curve/uncompressed/hybrid, boundary scalars, Ed25519 small-order/non-canonical/off-curve, RSA wrong sizes/exponents/DER damage/PEM); everything that parses is displayed, identified, cloned, used to seal/unseal/wrap/unwrap/seal-to. non-trivial = the input reached the type's base64 decoder (header matched) or was accepted; distinct = distinct (backend, target, string)"),
+        json!("hostile strings for every FromStr/Deserialize instantiation of every backend: (i) header variants x every decoded body length 0..700 x {random,00,ff,stretched-valid}; (iv-a) footers of valid multi-byte UTF-8 of every byte length 0..=160 and alignment on every token target; (ii-c) tokens validly sealed under the fixture keys whose claims carry extreme / malformed exp-nbf-iat timestamps or wrong types, unsealed through every built-in validator (Time at a realistic now, leeways 1 s..1 y, HasExpiry/ForSubject/FromIssuer/ForAudience chains, Vec); (ii) mutated valid serialisations (vectors + fresh): bit flips, byte sets, truncation, insertion, deletion, zero runs, cross-kind splices, decoded-level edits, multibyte UTF-8; (iii) degenerate key encodings (P-384 infinity/x>=p/off-curve/uncompressed/hybrid, boundary scalars, Ed25519 small-order/non-canonical/off-curve, RSA wrong sizes/exponents/DER damage/PEM); everything that parses is displayed, identified, cloned, used to seal/unseal/wrap/unwrap/seal-to. non-trivial = the input reached the type's base64 decoder (header matched) or was accepted; distinct = distinct (backend, target, string)"),
     );
     rep.finish(opts);
 }
